@@ -4,9 +4,11 @@ import TrionModel.Lemmas.SimpStableDec
 # C08 (statement level, BYTES and DIAGNOSED-OR-NOT) — the order of definition does not change what is emitted
 
 Props/C08Asm.lean proves that a deferred statement re-run over the final table `t₂ ⊇ t₁` IS the fresh assembly over `t₂`
-— state, trees and all — under the syntactic side condition `plain` on the operand trees, because at TREE level the claim
-is false in general (`Simp.resumes_false`: the retry evaluates already evaluated sub-trees once more and `evaluate` is
-not idempotent: `0 - (r1 - r0) ↦ -(r1 - r0) ↦ r0 - r1`).
+— state, trees and all — under the syntactic side condition `plain` on the operand trees.  That condition was needed as
+long as `evaluate` was not idempotent (findings K4, K5: `-(−1 − r0) ↦ r0 − (−1)`, `0 − (l − r) ↦ −(l − r)`); after the two
+repairs it is (`Props/C08Full.lean`: `evaluate_idempotent`), and Props/C08Full.lean states everything below WITHOUT any
+condition on the operand trees.  The theorems of this file are the layer in between and remain as proved: they need no
+idempotence where the operand has to become a number, and isolate the exact condition elsewhere.
 
 This file states the property at the level it speaks about — does the statement assemble, and to which bytes — and
 removes `plain` wherever the operand has to become a NUMBER:
@@ -28,19 +30,16 @@ removes `plain` wherever the operand has to become a NUMBER:
 * `const_never_from_register` (the reason): an operand whose evaluation ends in a number contains no register, however
   often the evaluation was interrupted.
 
-FULL-STRENGTH STATEMENT (no guard at the `ImmReg / Address / AddrOffset` positions):
-    theorem stmt_outcome_order_independent_full (hs : Table.Sub t₁ t₂) (hn : Table.NoDef t₁)
-        (h1 : Front.build addr name args (frontEval t₁) true = .deferred c fs1) (i : Instr) :
-        (∃ fs2, Front.assemble fs1 (frontEval t₂) false = (fs2, .completed) ∧ fs2.instr = i) ↔
-          Front.build addr name args (frontEval t₂) true = .completed i
-  History (K4): on the code as it was, this was FALSE — `.addr 0x20000000; LDRB r2, [-(-1 - r0) * x]; .const x, 1;`
-  assembled (`42 78` = `LDRB r2, [r0, #1]`) while with `.const x, 1;` ABOVE the instruction the statement was refused
-  (`argument #3 for LDRB is out of range`): the `Negate` arm of `simplify_raw` rewrote `-(l - r)` to `r - l` WITHOUT
-  neutralizing the new node, so `r0 - (-1)` survived a step that hands its operand back unchanged (`* 1`, `/ 1`, `<< 0`,
-  `| 0`, …) on the fresh path, while the retry evaluated it once more to `r0 + 1`.  The model in this branch follows the
-  repair (`neutralize_raw(arg)?` after the swap); the witness now agrees in both orders (`order_independent_below/above`).
-  The guard is sufficient, not necessary (`exTower` below): `evaluate` is still not idempotent at TREE level
-  (`Simp.resumes_false`: `0 - (l - r) ↦ -(l - r)` by `neutralize_raw`, which a second pass turns into `r - l`).
+FULL-STRENGTH STATEMENT (no guard at the `ImmReg / Address / AddrOffset` positions): proved as
+`Asm.stmt_outcome_order_independent` in Props/C08Full.lean (the guard holds for every tree: `leftStableArg_all`).
+  History.  K4, on the code as it was: `.addr 0x20000000; LDRB r2, [-(-1 - r0) * x]; .const x, 1;` assembled (`42 78` =
+  `LDRB r2, [r0, #1]`) while with `.const x, 1;` ABOVE the instruction the statement was refused: the `Negate` arm of
+  `simplify_raw` rewrote `-(l - r)` to `r - l` WITHOUT neutralizing the new node, so `r0 - (-1)` survived a step that hands
+  its operand back unchanged (`* 1`, `/ 1`, `<< 0`, `| 0`, …) on the fresh path while the retry evaluated it once more to
+  `r0 + 1`.  K5, after that repair: `LDR r2, [(0 - ((0 - r0) - r1)) * x]` — `neutralize_raw` turned `0 - (-r0 - r1)` into
+  `-(-r0 - r1)`, which the fresh path kept (refused) and the retry re-evaluated to `r1 + r0` (`0a 58`).  The model follows
+  both repairs (`neutralize_raw` swaps `-(l - r)` and `0 - (l - r)` to `r - l` before its passes); both witnesses now agree
+  in both orders (`order_independent_below/above`, `order_independent_below5/above5`).
 
 `NoDef t₁` (no `.global/.import`-deferred entry in the table of the first attempt) is inherited from Props/C08Asm.lean.
 -/
@@ -204,21 +203,21 @@ theorem stmt_bytes_of_outcome (enc : Encoder) (fs2 : Front.St) (i : Instr) (h : 
 
 /-! ### non-vacuity -/
 
-/-- the tree of `Simp.resumes_false`: `(0 - (r1 - r0)) + x` -/
+/-- the tree of the old `Simp.resumes_false`: `(0 - (r1 - r0)) + x` -/
 def exNegTree : Arg :=
   .bin .add (.bin .sub (.const 0) (.bin .sub (.ident [114, 49]) (.ident [114, 48]))) (.ident [120])
 
-/-- `.du32 (0 - (r1 - r0)) + x` with `x = 1` defined below: the operand is NOT `plain`, the two paths leave DIFFERENT
-trees (`(r0 - r1) + 1` and `-(r1 - r0) + 1`) — and `du_bytes_order_independent` applies: neither is a number, both
-are diagnosed. -/
+/-- `.du32 (0 - (r1 - r0)) + x` with `x = 1` defined below: the operand is NOT `plain`; before the repair of K5 the two
+paths left DIFFERENT trees (`(r0 - r1) + 1` and `-(r1 - r0) + 1`).  Now `0 - (r1 - r0)` is `r0 - r1` at once, the two
+paths end with the same tree — which is not a number, so both are diagnosed (`du_bytes_order_independent`). -/
 example :
     plainArg exNegTree = false ∧
     evalIn [] exNegTree =
-      .ok (.noSuch [120] (.bin .add (.neg (.bin .sub (.ident [114, 49]) (.ident [114, 48]))) (.ident [120]))) ∧
-    evalIn [([120], some 1)] (.bin .add (.neg (.bin .sub (.ident [114, 49]) (.ident [114, 48]))) (.ident [120])) =
+      .ok (.noSuch [120] (.bin .add (.bin .sub (.ident [114, 48]) (.ident [114, 49])) (.ident [120]))) ∧
+    evalIn [([120], some 1)] (.bin .add (.bin .sub (.ident [114, 48]) (.ident [114, 49])) (.ident [120])) =
       .ok (.complete (.bin .add (.bin .sub (.ident [114, 48]) (.ident [114, 49])) (.const 1))) ∧
     evalIn [([120], some 1)] exNegTree =
-      .ok (.complete (.bin .add (.neg (.bin .sub (.ident [114, 49]) (.ident [114, 48]))) (.const 1))) ∧
+      .ok (.complete (.bin .add (.bin .sub (.ident [114, 48]) (.ident [114, 49])) (.const 1))) ∧
     Table.Sub [] [([120], some 1)] ∧ Table.NoDef [] :=
   ⟨rfl, rfl, rfl, rfl, fun _ _ h => by simp [Table.find] at h, fun _ h => by simp [Table.find] at h⟩
 
@@ -289,35 +288,18 @@ def exTower : Arg :=
   .bin .sub (.const 0)
     (.bin .add (.bin .add (.neg (.bin .add (.ident [114, 49]) (.const 5))) (.const 7)) (.ident [120]))
 
-/-- the exact TREE-level condition is not NECESSARY for equal bytes, which is why the full statement needs a proof
-about normal forms rather than a larger side condition: in `MOVS r0, 0 - ((-(r1 + 5) + 7) + x)` the first attempt
-completes `-(r1 + 5) + 7` to `-(r1 - 2)`, which is NOT a fixed point of `evaluate` (the retry turns it into `2 - r1`),
-and with `x = -2` defined below or above both paths still end in the register `r1` (checked on the real assembler too:
-both orders emit `08 00`, `MOVS r0, r1`). -/
+/-- `MOVS r0, 0 - ((-(r1 + 5) + 7) + x)`: the first attempt completes `-(r1 + 5) + 7`.  Before the repair of K5 this gave
+`-(r1 - 2)`, not a fixed point of `evaluate`; now the merge's final `neutralize` swaps it to `2 - r1`, the operand
+satisfies the exact condition, and with `x = -2` both orders end in the register `r1` (real assembler: `08 00`). -/
 example :
     evalIn [] exTower = .ok (.noSuch [120]
-      (.bin .sub (.const 0) (.bin .add (.neg (.bin .sub (.ident [114, 49]) (.const 2))) (.ident [120])))) ∧
-    evalIn [([120], some (-2))] (.neg (.bin .sub (.ident [114, 49]) (.const 2))) =
-      .ok (.complete (.bin .sub (.const 2) (.ident [114, 49]))) ∧
+      (.bin .sub (.const 0) (.bin .add (.bin .sub (.const 2) (.ident [114, 49])) (.ident [120])))) ∧
     evalIn [([120], some (-2))]
-      (.bin .sub (.const 0) (.bin .add (.neg (.bin .sub (.ident [114, 49]) (.const 2))) (.ident [120]))) =
+      (.bin .sub (.const 0) (.bin .add (.bin .sub (.const 2) (.ident [114, 49])) (.ident [120]))) =
       .ok (.complete (.ident [114, 49])) ∧
     evalIn [([120], some (-2))] exTower = .ok (.complete (.ident [114, 49])) ∧
-    ¬ LeftStableArg [] [([120], some (-2))] exTower := by
-  refine ⟨rfl, rfl, rfl, rfl, fun h => ?_⟩
-  unfold LeftStableArg exTower at h
-  simp only [Simp.LeftStable] at h
-  obtain ⟨_, ⟨_, _, h3⟩, _⟩ := h
-  have h0 : Simp.evaluateE (fun n => Table.get [] n) Front.isRegister
-      (.bin .add (.neg (.bin .add (.ident [114, 49]) (.const 5))) (.const 7)) =
-      .ok ⟨true, none⟩ (.neg (.bin .sub (.ident [114, 49]) (.const 2))) := rfl
-  have h1 : Simp.evaluateE (fun n => Table.get [] n) Front.isRegister (.ident [120]) = .nosuch [120] (.ident [120]) := rfl
-  obtain ⟨ev, he, _⟩ := h3 _ _ _ _ h0 h1
-  have h2 : Simp.evaluateE (fun n => Table.get [([120], some (-2))] n) Front.isRegister
-      (.neg (.bin .sub (.ident [114, 49]) (.const 2))) =
-      .ok ⟨true, none⟩ (.bin .sub (.const 2) (.ident [114, 49])) := rfl
-  rw [h2] at he
-  cases he
+    leftStableArgB [] [([120], some (-2))] exTower = true := ⟨rfl, rfl, rfl, rfl⟩
+
 
 end Trion.Asm
 
@@ -330,8 +312,7 @@ once more over `t₂` on every value completed on the way; `true` discharges the
 theorem leftStable_checked {t₁ t₂ : Table} {a : Arg} (h : leftStableArgB t₁ t₂ a = true) : LeftStableArg t₁ t₂ a :=
   leftStableArgB_sound h
 
-/-- the checker accepts `[((r1 + 1) + 1) + x]`, `[r1 + r2 + x]`, `[(r1 * 4) + x]` and rejects the two trees with a
-completed `-(l - r)` -/
+/-- the checker accepts `[((r1 + 1) + 1) + x]`, `[r1 + r2 + x]`, `[(r1 * 4) + x]`, `(0 - (r1 - r0)) + x` -/
 example :
     leftStableArgB [] [([120], some 2)]
       (.addr (.bin .add (.bin .add (.bin .add (.ident [114, 49]) (.const 1)) (.const 1)) (.ident [120]))) = true ∧
@@ -339,8 +320,7 @@ example :
       (.addr (.bin .add (.bin .add (.ident [114, 49]) (.ident [114, 50])) (.ident [120]))) = true ∧
     leftStableArgB [] [([120], some 0)]
       (.addr (.bin .add (.bin .mul (.ident [114, 49]) (.const 4)) (.ident [120]))) = true ∧
-    leftStableArgB [] [([120], some 1)] exNegTree = false ∧
-    leftStableArgB [] [([120], some (-2))] exTower = false := ⟨rfl, rfl, rfl, rfl, rfl⟩
+    leftStableArgB [] [([120], some 1)] exNegTree = true := ⟨rfl, rfl, rfl, rfl⟩
 
 end Trion.Asm
 
@@ -398,54 +378,38 @@ end Trion.Asm
 namespace Trion.Asm
 open Trion
 
-/-! ### K5: after the repair of K4 the full-strength statement is STILL false -/
+/-! ### K5 (repaired): after the repair of K4 the two orders still differed on this statement -/
 
 /-- the operand of `LDR r2, [(0 - ((0 - r0) - r1)) * x]` as the parser delivers it -/
 def exOrder5 : Arg :=
   .addr (.bin .mul (.bin .sub (.const 0) (.bin .sub (.bin .sub (.const 0) (.ident [114, 48])) (.ident [114, 49])))
     (.ident [120]))
 
-/-- C08 FINDING K5 (witness, on the code with the K4 repair)  `LDR r2, [(0 - ((0 - r0) - r1)) * x]` with `x = 1`:
-`neutralize_raw` turns `0 - (-r0 - r1)` into `-(-r0 - r1)` (its `0 - rhs ↦ -rhs` rule does not swap a difference), which
-is not a fixed point of `evaluate`.  Defined ABOVE: the fresh evaluation keeps it through `* 1` and the address reader
-refuses it (`ValueRange`, argument #3).  Defined BELOW: the first attempt leaves `[-(-r0 - r1) * x]`, the re-run evaluates
-the left operand once more — the `Negate` arm swaps to `r1 - (-r0)` and neutralizes to `r1 + r0` — and completes with
-`LDR r2, [r1, r0]`.  Replayed on the real assembler (/repo 4f59ec4): `0a 58` / "argument #3 for LDR is out of range". -/
-theorem order_dependent_witness5 :
+/-- K5, on the code with the K4 repair only: `neutralize_raw` turned `0 - (-r0 - r1)` into `-(-r0 - r1)` (its `0 - rhs ↦ -rhs`
+rule did not swap a difference), not a fixed point of `evaluate`; defined ABOVE, the fresh evaluation kept it through
+`* 1` and the address reader refused it, defined BELOW the re-run evaluated it once more to `r1 + r0` and completed with
+`LDR r2, [r1, r0]` (`0a 58`).  With the swap `-(l - r)`, `0 - (l - r) ↦ r - l` at the top of `neutralize_raw` the first
+attempt leaves `[(r1 + r0) * x]` and both orders give `LDR r2, [r1, r0]`. -/
+example :
     (∃ fs1, Front.build 0 [76, 68, 82] [.ident [114, 50], exOrder5] (frontEval []) true = .deferred [120] fs1 ∧
       fs1.args = [.ident [114, 50],
-        .addr (.bin .mul (.neg (.bin .sub (.neg (.ident [114, 48])) (.ident [114, 49]))) (.ident [120]))] ∧
+        .addr (.bin .mul (.bin .add (.ident [114, 49]) (.ident [114, 48])) (.ident [120]))] ∧
       ∃ fs2, Front.assemble fs1 (frontEval [([120], some 1)]) false = (fs2, .completed) ∧
         fs2.instr = .ldr 2 1 (.reg 0)) ∧
-    (∃ st, Front.build 0 [76, 68, 82] [.ident [114, 50], exOrder5] (frontEval [([120], some 1)]) true =
-      .error (.valueRange 2) st) ∧
-    leftStableArgB [] [([120], some 1)] exOrder5 = false :=
-  ⟨⟨_, rfl, rfl, _, rfl, rfl⟩, ⟨_, rfl⟩, rfl⟩
-
-/-- C08 FINDING K5  The full-strength statement-level property does not hold on the code with the K4 repair either. -/
-theorem stmt_outcome_order_independent_full_false :
-    ¬ (∀ (t₁ t₂ : Table) (addr : Nat) (name : Bytes) (args : List Arg) (c : Bytes) (fs1 : Front.St),
-        Table.Sub t₁ t₂ → Table.NoDef t₁ → Front.build addr name args (frontEval t₁) true = .deferred c fs1 →
-        ∀ i : Instr, (∃ fs2, Front.assemble fs1 (frontEval t₂) false = (fs2, .completed) ∧ fs2.instr = i) ↔
-          Front.build addr name args (frontEval t₂) true = .completed i) := by
-  intro h
-  obtain ⟨⟨fs1, hb, _, fs2, ha, hi⟩, ⟨st, he⟩, _⟩ := order_dependent_witness5
-  have := (h [] [([120], some 1)] 0 [76, 68, 82] [.ident [114, 50], exOrder5] [120] fs1
-    (fun _ _ h => by simp [Table.find] at h) (fun _ h => by simp [Table.find] at h) hb (.ldr 2 1 (.reg 0))).1
-    ⟨fs2, ha, hi⟩
-  rw [he] at this
-  cases this
+    Front.build 0 [76, 68, 82] [.ident [114, 50], exOrder5] (frontEval [([120], some 1)]) true =
+      .completed (.ldr 2 1 (.reg 0)) ∧
+    leftStableArgB [] [([120], some 1)] exOrder5 = true :=
+  ⟨⟨_, rfl, rfl, _, rfl, rfl⟩, rfl, rfl⟩
 
 def exBelow5 : Bytes := bytesOf ".addr 0x20000000;\nLDR r2, [(0 - ((0 - r0) - r1)) * x];\n.const x, 1;\n"
 def exAbove5 : Bytes := bytesOf ".addr 0x20000000;\n.const x, 1;\nLDR r2, [(0 - ((0 - r0) - r1)) * x];\n"
 
-/-- K5 on the whole-pipeline model: `x` defined BELOW — the project assembles, image `0a 58` (`LDR r2, [r1, r0]`) -/
-theorem order_dependent_below5 : exSummary (run (exOrdFs exBelow5) [109]) = some (true, 0, [(536870912, [10, 88])]) := by
+/-- K5 on the whole-pipeline model: `x` defined BELOW — image `0a 58` (`LDR r2, [r1, r0]`) -/
+theorem order_independent_below5 : exSummary (run (exOrdFs exBelow5) [109]) = some (true, 0, [(536870912, [10, 88])]) := by
   decide +kernel
 
-/-- K5: `x` defined ABOVE — diagnosed twice, placeholder left in the image, run fails -/
-theorem order_dependent_above5 :
-    exSummary (run (exOrdFs exAbove5) [109]) = some (false, 2, [(536870912, [190, 190])]) := by
+/-- K5: `x` defined ABOVE — the same image (before the repair: two diagnostics and `BE BE`) -/
+theorem order_independent_above5 : exSummary (run (exOrdFs exAbove5) [109]) = some (true, 0, [(536870912, [10, 88])]) := by
   decide +kernel
 
 end Trion.Asm
